@@ -193,6 +193,41 @@ def sepLines : List Nat → List (List Nat)
     else if c = 10 then [] :: sepLines (d :: cs)
     else consHead c (sepLines (d :: cs))
 
+/-! ### text mode: every yielded line is decoded as UTF-8 -/
+
+def isCont (b : Nat) : Bool := 128 ≤ b && b ≤ 191
+
+/-- well-formed UTF-8; `sp` = lone surrogates (ED A0..BF xx) allowed, as with the error handler
+    'surrogatepass' that `json.loads` uses for bytes; `sp = false` is the strict codec of
+    `line.decode('utf-8')` in `reverse_iter_lines` -/
+def validUtf8G (sp : Bool) : List Nat → Bool
+  | [] => true
+  | b :: rest =>
+    if b < 128 then validUtf8G sp rest
+    else if 194 ≤ b && b ≤ 223 then
+      match rest with
+      | c1 :: r => isCont c1 && validUtf8G sp r
+      | _ => false
+    else if 224 ≤ b && b ≤ 239 then
+      match rest with
+      | c1 :: c2 :: r =>
+        isCont c1 && isCont c2 && (b != 224 || 160 ≤ c1) && (b != 237 || sp || c1 ≤ 159) && validUtf8G sp r
+      | _ => false
+    else if 240 ≤ b && b ≤ 244 then
+      match rest with
+      | c1 :: c2 :: c3 :: r =>
+        isCont c1 && isCont c2 && isCont c3 && (b != 240 || 144 ≤ c1) && (b != 244 || c1 ≤ 143)
+          && validUtf8G sp r
+      | _ => false
+    else false
+
+/-- UTF-8 as accepted by `bytes.decode('utf-8', 'surrogatepass')` -/
+def validUtf8 (l : List Nat) : Bool := validUtf8G true l
+
+/-- UTF-8 as accepted by `bytes.decode('utf-8')`: what a text-mode file holds, and what
+    `reverse_iter_lines` requires of every line it yields in text mode -/
+def strictUtf8 (l : List Nat) : Bool := validUtf8G false l
+
 /-! ### JSONLIterator -/
 
 /-- what `.lstrip()` strips from a line (the table is regenerated from the code's behaviour) -/
